@@ -5,9 +5,18 @@
    C06 nm-resume  <setup> (sim ((..)..)) (fsim (..)) (nlog n) (nstep n) (steps k) (radius f) (inplace b)
    C06 ctl-resume (state gens evals nstep maxiter maxfun exit live) (scale i e) (powell b) (ops (..))
    C06 alias      (ops ((fresh) (call i n) (decorate i) (pickle i) (deepcopyU i) (deepcopyL i) ..))
+   C06 pw-resume  <setup> (x (..)) (fval f) (x1 (..)) (fx f) (bigind n) (delta f) (direc ((..)..)) (nlog n)
+                  (steplog (((..) f) ..)) (pending b) (steps k) (ls (<recorded line search> ..))
+                  Powell-in-S (`Model/PowellS.lean`) restarted from an EXPLICIT `PwSnap` through `PowellS.stepAt`
+   C06 pw-share   <setup> <state> (ops ((deep i) (shallow i) (step i (ls ..)) ..)): solver objects holding a POINTER to their
+                  direction-set array (`PowellS.stepObj` / `deepCopyObj` / `shallowCopyObj`); after every op the state each
+                  object sees
+   C06 pw-dump    the same state arguments + (ls ..): the snapshot of `PowellS.midDump` (what `__save_state()` pickles
+                  in the middle of the next `_Step`)
 -/
 import MysticVerif.Basic.Proto
 import MysticVerif.Model.Checkpoint
+import MysticVerif.Model.PowellResume
 import MysticVerif.Drv.SolverDrv
 
 namespace MysticVerif.DrvC06
@@ -144,11 +153,109 @@ def handleAlias (args : List Val) : String := Id.run do
     outs := outs.push ("(" ++ " ".intercalate (objs.toList.map (showObj h)) ++ ")")
   return s!"ok states=({" ".intercalate outs.toList})"
 
+/-! ### Powell-in-S restarted from an explicit snapshot -/
+
+def pairs? (v : Val) : Option (List (V × Float)) :=
+  v.asList?.bind (·.mapM fun p => match p with
+    | .list [x, y] => do pure (← x.asFloats?, ← y.asFloat?)
+    | _ => none)
+
+open MysticVerif.PowellS in
+def parsePwSnap (args : List Val) : Option (PwSnap Float Float) := do
+  let x ← (kw? args "x").bind Val.asFloats?
+  let fval ← (kw? args "fval").bind Val.asFloat?
+  let x1 ← (kw? args "x1").bind Val.asFloats?
+  let fx ← (kw? args "fx").bind Val.asFloat?
+  let bigind ← (kw? args "bigind").bind Val.asNat?
+  let delta ← (kw? args "delta").bind Val.asFloat?
+  let direc ← (kw? args "direc").bind floatss?
+  let nlog ← (kw? args "nlog").bind Val.asNat?
+  let steplog ← (kw? args "steplog").bind pairs?
+  let pending ← (kw? args "pending").bind Val.asBool?
+  pure { population0 := x, popEnergy0 := fval, x1 := x1, fx := fx, bigind := bigind, delta := delta, direc := direc,
+         evalmon := blankLog nlog, stepmon := steplog, pending := pending, nls := 0 }
+
+open MysticVerif.PowellS in
+def showPwFull (s : PowellS.Pw Float Float) (nlog : Nat) : String :=
+  s!"(x {pFs s.x} fval {pF s.fval} x1 {pFs s.x1} fx {pF s.fx} bigind {s.bigind} delta {pF s.delta} direc {pFss s.direc} " ++
+  s!"nlog {s.log.length} nstep {s.stepLog.length} nls {s.nls} pending {pB s.pending} gens {s.generations} " ++
+  s!"logsum {(logSum (s.log.drop nlog)).toNat})"
+
+open MysticVerif.PowellS in
+def lsOracle (lsl : List (LsRec Float)) : Nat → V → V → LsRec Float :=
+  let lsArr := lsl.toArray
+  -- an exhausted oracle answers with the start point (never happens when the model follows the real run)
+  fun k p _ => lsArr.getD k { pre := [], y := p, post := [], xi := p.map fun _ => 0.0 }
+
+open MysticVerif.PowellS in
+def handlePwResume (args : List Val) : String := Id.run do
+  let some su := parseSetup args | return "bad-op"
+  let some snap := parsePwSnap args | return "bad-op"
+  let some steps := (kw? args "steps").bind Val.asNat? | return "bad-op"
+  let some lsl := (kw? args "ls").bind Val.asList? |>.bind (·.mapM parseLs) | return "bad-op"
+  let o := su.obj
+  let ls := lsOracle lsl
+  let nlog := snap.evalmon.length
+  -- `restore`, then `steps` further `_Step`s, each dispatched from the state alone
+  let mut s : PowellS.Pw Float Float := snap.restore
+  let mut outs : Array String := #[]
+  for _ in [0:steps] do
+    s := stepAt o pwCfgF ls s
+    outs := outs.push (showPwFull s nlog)
+  let reqs := "(" ++ " ".intercalate (s.reqs.map fun r => "(" ++ pFs r.1 ++ " " ++ pFs r.2 ++ ")") ++ ")"
+  return s!"ok steps=({" ".intercalate outs.toList}) reqs={reqs} steplog={pPairs s.stepLog} hist={pFs s.hist}"
+
+open MysticVerif.PowellS in
+def handlePwDump (args : List Val) : String := Id.run do
+  let some su := parseSetup args | return "bad-op"
+  let some snap := parsePwSnap args | return "bad-op"
+  let some lsl := (kw? args "ls").bind Val.asList? |>.bind (·.mapM parseLs) | return "bad-op"
+  let o := su.obj
+  let s := midDump o pwCfgF (lsOracle lsl) snap.restore
+  return s!"ok dump={showPwFull s snap.evalmon.length} steplog={pPairs s.stepLog} hist={pFs s.hist}"
+
+open MysticVerif.PowellS in
+def showPwObj (h : DHeap Float) (p : PwObj Float Float) : String :=
+  let s := p.load h
+  s!"(x {pFs s.x} fval {pF s.fval} x1 {pFs s.x1} fx {pF s.fx} bigind {s.bigind} delta {pF s.delta} direc {pFss s.direc} nstep {s.stepLog.length} pending {pB s.pending})"
+
+open MysticVerif.PowellS in
+def handlePwShare (args : List Val) : String := Id.run do
+  let some su := parseSetup args | return "bad-op"
+  let some snap := parsePwSnap args | return "bad-op"
+  let some ops := (kw? args "ops").bind Val.asList? | return "bad-op"
+  let o := su.obj
+  let mut h : DHeap Float := { cells := [snap.direc] }
+  let mut objs : Array (PwObj Float Float) := #[{ s := snap.restore, dptr := 0 }]
+  let mut outs : Array String := #[]
+  for op in ops do
+    match op with
+    | .list [.sym "deep", .int i] =>
+      let some p := objs[i.toNat]? | return "err index"
+      let r := deepCopyObj h p
+      h := r.1; objs := objs.push r.2
+    | .list [.sym "shallow", .int i] =>
+      let some p := objs[i.toNat]? | return "err index"
+      let r := shallowCopyObj h p
+      h := r.1; objs := objs.push r.2
+    | .list [.sym "step", .int i, lsv] =>
+      let some p := objs[i.toNat]? | return "err index"
+      let some lsl := lsv.asList?.bind (·.mapM parseLs) | return "bad-op"
+      -- the oracle of this Step is the recording of this Step (`powellS_restart_index`: the index may restart at 0)
+      let r := stepObj o pwCfgF (lsOracle lsl) h { p with s := { p.s with nls := 0 } }
+      h := r.1; objs := objs.set! i.toNat r.2
+    | _ => return "bad-op"
+    outs := outs.push ("(" ++ " ".intercalate (objs.toList.map (showPwObj h)) ++ ")")
+  return s!"ok states=({" ".intercalate outs.toList})"
+
 def handle : Handler
   | .sym "de-resume" :: args => handleDE args
   | .sym "nm-resume" :: args => handleNM args
   | .sym "ctl-resume" :: args => handleCtl args
   | .sym "alias" :: args => handleAlias args
+  | .sym "pw-resume" :: args => handlePwResume args
+  | .sym "pw-dump" :: args => handlePwDump args
+  | .sym "pw-share" :: args => handlePwShare args
   | _ => "bad-op"
 
 end MysticVerif.DrvC06
